@@ -197,12 +197,14 @@ Fixpoint delete_faulty (c : bs) (fr : nat -> bool) (k : nat) (snapshot : list en
       else delete_faulty c fr k r acc
   end.
 
-(* (agent afterwards, did the call report success) *)
-Definition upsert_faulty (f : faults) (n : entry) (a : agent) : agent * bool :=
+(* (agent afterwards, did the call report success); `snap` is the listing the agent returned, in
+   the agent's order *)
+Definition upsert_faulty_on (snap : list entry) (f : faults) (n : entry) (a : agent) : agent * bool :=
   if f_list f then (a, false)
   else
-    let '(a1, ok) := delete_faulty (e_comment n) (f_remove f) 0 a a in
+    let '(a1, ok) := delete_faulty (e_comment n) (f_remove f) 0 snap a in
     if ok then (if f_add f then (a1, false) else (agent_add n a1, true)) else (a1, false).
+Definition upsert_faulty (f : faults) (n : entry) (a : agent) : agent * bool := upsert_faulty_on a f n a.
 
 (* NOT the code: the clean-up treated as best effort — its error is ignored and the certificate added anyway *)
 Definition upsert_best_effort (f : faults) (n : entry) (a : agent) : agent * bool :=
@@ -218,8 +220,10 @@ Definition entry_eqb (x y : entry) : bool :=
 Inductive aop :=
 | AForeign (e : entry)      (* somebody else adds an identity (ssh-add) *)
 | AUpsert (e : entry)       (* the client installs a certificate *)
-| AUpsertF (fl : bool) (fr : N) (fa : bool) (e : entry) (ok : bool).
+| AUpsertF (fl : bool) (fr : N) (fa : bool) (e : entry) (snap : agent) (ok : bool).
    (* the same against a failing agent: List refused / the (fr-1)-th Remove refused (0 = none) / Add refused;
+      snap = the listing the agent returned, in ITS order (which of several certificates is removed
+      before a refused Remove depends on it; the x/crypto keyring reorders on removal);
       ok = the call was observed to report success *)
 Definition faults_of (fl : bool) (fr : N) (fa : bool) : faults :=
   mkFaults fl (fun k => negb (fr =? 0) && (N.of_nat k =? fr - 1)) fa.
@@ -227,17 +231,20 @@ Definition astep (a : agent) (o : aop) : agent :=
   match o with
   | AForeign e => agent_add e a
   | AUpsert e => upsert e a
-  | AUpsertF fl fr fa e _ => fst (upsert_faulty (faults_of fl fr fa) e a)
-  end.
-Definition aok (a : agent) (o : aop) : bool :=
-  match o with
-  | AUpsertF fl fr fa e ok => Bool.eqb (snd (upsert_faulty (faults_of fl fr fa) e a)) ok
-  | _ => true
+  | AUpsertF fl fr fa e snap _ => fst (upsert_faulty_on snap (faults_of fl fr fa) e a)
   end.
 
 Definition same_entries (x y : agent) : bool :=
   Nat.eqb (length x) (length y) && forallb (fun e => existsb (entry_eqb e) y) x &&
   forallb (fun e => existsb (entry_eqb e) x) y.
+
+(* the returned listing is the model's agent content (as a set), and the success flag is as predicted *)
+Definition aok (a : agent) (o : aop) : bool :=
+  match o with
+  | AUpsertF fl fr fa e snap ok =>
+      (fl || same_entries snap a) && Bool.eqb (snd (upsert_faulty_on snap (faults_of fl fr fa) e a)) ok
+  | _ => true
+  end.
 
 Fixpoint acheck (a : agent) (ops : list (aop * agent)) : bool :=
   match ops with
